@@ -137,39 +137,47 @@ for _n, _tier, _T in ((1, "quick", 60), (2, "quick", 120), (3, "thorough", 600))
        )(_k1(_n))
 
 
-# K2: cst_parse_one_node line accounting from an arbitrary running line number ---------------------
-def _k2(n):
-    def body(acc, *cs):
-        from cdd.shared.cst_utils import UnchangingLine, cst_parse_one_node
+# K2: line accounting of the parser over a sequence of chunks (public cst_parser; no assumption about its internal state) --------------
+PREFIXES = ("x = 1", "\ndef f():", "\nclass A:", "\n    # comment", "\n\n\ny = (1,\n 2)", '\n    """doc\n    """')
 
-        s = S(cs)
+
+def _k2(n):
+    def body(p0, p1, *cs):
+        from cdd.shared.cst_utils import cst_parser
         import cdd.shared.cst_utils as cu
         from chx.shim import shim
 
-        state = {"acc": acc, "prev_node": UnchangingLine(None, None, ""), "parsed": []}
+        pre0, pre1 = PREFIXES[0], PREFIXES[0]
+        for k in range(1, len(PREFIXES)):
+            if p0 == k:
+                pre0 = PREFIXES[k]
+            if p1 == k:
+                pre1 = PREFIXES[k]
+        chunks = [pre0, pre1, S(cs), "\nz = 3"]
         with shim(cu, infer_cst_type=_unchanging):
-            node = cst_parse_one_node(s, state)
-        if node.value != s:
-            return "node value is not the statement"
-        if node.line_no_start != acc:
-            return "node does not start at the running line number"
-        if node.line_no_end != acc + s.count("\n"):
-            return "node end != start + number of line breaks"
-        if state["acc"] != node.line_no_end:
-            return "running line number not advanced to the node end"
-        if len(state["parsed"]) != 1 or state["parsed"][0] is not node or state["prev_node"] is not node:
-            return "state bookkeeping wrong"
+            nodes = cst_parser(list(chunks))
+        if len(nodes) != len(chunks):
+            return "cst_parser returned %d nodes for %d chunks" % (len(nodes), len(chunks))
+        line = 1
+        for node, chunk in zip(nodes, chunks):
+            if node.value != chunk:
+                return "node value is not its chunk"
+            if node.line_no_start != line:
+                return "node starts at line %r, the previous one ended at line %d" % (node.line_no_start, line)
+            if node.line_no_end != line + chunk.count("\n"):
+                return "node end != start + number of line breaks in its text"
+            line = node.line_no_end
         return ""
 
     body.__name__ = "K2_n%d" % n
     return body
 
 
-for _n, _tier, _T in ((1, "quick", 60), (2, "quick", 200), (3, "thorough", 900)):
-    ob("C09", "K2.n%d" % _n, dict({"acc": R(1, 10 ** 6)}, **_args(_n)), tier=_tier, T=_T,
-       funcs=PFUNCS[-3:], assumes=[INFER_STUB],
-       bound="one call of cst_parse_one_node for every statement of exactly %d code points and every running line number 1..10^6" % _n,
-       )(_k2(_n))
+for _n, _tier, _T in ((1, "quick", 120), (2, "quick", 300), (3, "thorough", 1500)):
+    ob("C09", "K2.n%d" % _n, dict({"p0": R(0, len(PREFIXES) - 1), "p1": R(0, len(PREFIXES) - 1)}, **_args(_n)), tier=_tier, T=_T,
+       funcs=PFUNCS[-4:], assumes=[INFER_STUB],
+       bound="cst_parser on [P, Q, S, 'z = 3'] with P, Q ANY of %d concrete chunks (assignment, def/class header, comment line, multi-line statement, docstring) and "
+             "S ANY %d code points: each node is its chunk, starts where the previous ended, spans its line breaks" % (len(PREFIXES), _n))(_k2(_n))
 
 
 # P4: corpus neighbourhood - windows cut from /repo's own sources, one symbolic code point substituted or inserted ----------------------
